@@ -15,11 +15,7 @@ def pi64 : Float := 3.14159265358979323846264338327950288
 
 /-- `(heading as f32, ground speed)` from the exact components, as the Rust code computes them -/
 def trackSpeed (v : Velocity) : Float × Float :=
-  let ew := Float.ofInt v.vEw
-  let ns := Float.ofInt v.vNs
-  let h := Float.atan2 ew ns * (360.0 / (2.0 * pi64))
-  let h := if h < 0.0 then h + 360.0 else h
-  (h.toFloat32.toFloat, Float.sqrt (ew * ew + ns * ns))
+  ((headingG floatTrack v).toFloat32.toFloat, speedG floatTrack v)
 
 def frameME : DF → Option ME
   | .adsb _ _ me _ => some me
